@@ -166,52 +166,55 @@ Section Red.
      contain no token (after the fix of F3); false: the code before the fix. *)
   Variable tokens_skip_empty : bool.
 
-  (* first_token of the element e at position p.  Fixed code: the first child (in order) that has a
-     first token; every child looked at is materialised by the element iterator. *)
+  (* loops over the children of the node at p, parameterised by the recursive call (so that they can
+     be reasoned about separately); [rec c q rs] is first/last_token of the child c at position q *)
+  Section TokenLoops.
+    Variable rec : gelem -> pos -> rstate -> option pos * rstate.
+    Variable p : pos.
+    (* the first child (in order) that has a first token; every child looked at is materialised by
+       the element iterator with its running offset *)
+    Fixpoint ft_loop (l : list gelem) (i : nat) (o : N) (rs : rstate) : option pos * rstate :=
+      match l with
+      | [] => (None, rs)
+      | c :: r =>
+          let rs1 := goa rs (i :: p) o in
+          match rec c (i :: p) rs1 with
+          | (Some t, rs2) => (Some t, rs2)
+          | (None, rs2) => if tokens_skip_empty then ft_loop r (S i) (o + glen c) rs2 else (None, rs2)
+          end
+      end.
+    (* l: the children from index i on; the children to the right are tried first.  The last child is
+       reached by last_child_or_token (offset = own end - len), the others by prev_sibling_or_token
+       hops from their right neighbour (offset = cached start of the neighbour - len). *)
+    Fixpoint lt_loop (elen : N) (l : list gelem) (i : nat) (rs : rstate) : option pos * rstate :=
+      match l with
+      | [] => (None, rs)
+      | c :: r =>
+          match lt_loop elen r (S i) rs with
+          | (Some t, rs2) => (Some t, rs2)
+          | (None, rs2) =>
+              match r with
+              | [] => rec c (i :: p) (goa rs2 (i :: p) (offset_of rs2 p + elen - glen c))
+              | _ :: _ =>
+                  if tokens_skip_empty then rec c (i :: p) (goa rs2 (i :: p) (offset_of rs2 (S i :: p) - glen c))
+                  else (None, rs2)
+              end
+          end
+      end.
+  End TokenLoops.
+
   Fixpoint first_token_of (e : gelem) (p : pos) (rs : rstate) : option pos * rstate :=
     match e with
     | GTok _ _ _ _ => (Some p, rs)
-    | GNode _ _ _ _ cs =>
-        (fix go (l : list gelem) (i : nat) (o : N) (rs : rstate) : option pos * rstate :=
-           match l with
-           | [] => (None, rs)
-           | c :: r =>
-               let rs1 := goa rs (i :: p) o in
-               match first_token_of c (i :: p) rs1 with
-               | (Some t, rs2) => (Some t, rs2)
-               | (None, rs2) => if tokens_skip_empty then go r (S i) (o + glen c) rs2 else (None, rs2)
-               end
-           end) cs 0%nat (offset_of rs p) rs
+    | GNode _ _ _ _ cs => ft_loop first_token_of p cs 0%nat (offset_of rs p) rs
     end.
   Definition first_token (rs : rstate) (p : pos) : option pos * rstate :=
     match subr g p with Some e => first_token_of e p rs | None => (None, rs) end.
 
-  (* last_token: last_child_or_token, then prev_sibling_or_token hops (each hop starts from the
-     cached start of the element it leaves) *)
   Fixpoint last_token_of (e : gelem) (p : pos) (rs : rstate) : option pos * rstate :=
     match e with
     | GTok _ _ _ _ => (Some p, rs)
-    | GNode _ _ _ _ cs =>
-        (fix go (l : list gelem) (i : nat) (rs : rstate) : option pos * rstate :=
-           (* l: the children from index i on; the children to the right are tried first *)
-           match l with
-           | [] => (None, rs)
-           | c :: r =>
-               match go r (S i) rs with
-               | (Some t, rs2) => (Some t, rs2)
-               | (None, rs2) =>
-                   match r with
-                   | [] =>   (* c is the last child: last_child_or_token, offset = own end - len *)
-                       let rs3 := goa rs2 (i :: p) (offset_of rs2 p + glen e - glen c) in
-                       last_token_of c (i :: p) rs3
-                   | _ :: _ =>  (* a hop: prev_sibling_or_token of the right neighbour *)
-                       if tokens_skip_empty then
-                         let rs3 := goa rs2 (i :: p) (offset_of rs2 (S i :: p) - glen c) in
-                         last_token_of c (i :: p) rs3
-                       else (None, rs2)
-                   end
-               end
-           end) cs 0%nat rs
+    | GNode _ _ len _ cs => lt_loop last_token_of p len cs 0%nat rs
     end.
   Definition last_token (rs : rstate) (p : pos) : option pos * rstate :=
     match subr g p with Some e => last_token_of e p rs | None => (None, rs) end.
@@ -325,6 +328,32 @@ Section Red.
     | c :: r => ((if tao_hit rs par off c i then 1 else 0) + count_hits rs par off r (S i))%nat
     end.
 
+  Section OffsetLoops.
+    Variable rec : gelem -> pos -> N -> rstate -> res tao_res * rstate.
+    Variable p : pos.
+    Variable off : N.
+    Variable rs1 : rstate.      (* the state in which the filter is evaluated *)
+    (* recurse into the (one or two) hits, left to right *)
+    Fixpoint tao_loop (l : list gelem) (i : nat) (rs : rstate) : list (res tao_res) * rstate :=
+      match l with
+      | [] => ([], rs)
+      | c :: r =>
+          if tao_hit rs1 p off c i then
+            let '(x, rs') := rec c (i :: p) off rs in
+            let '(xs, rs'') := tao_loop r (S i) rs' in (x :: xs, rs'')
+          else tao_loop r (S i) rs
+      end.
+  End OffsetLoops.
+
+  Definition tao_combine (results : list (res tao_res)) : res tao_res :=
+    match results with
+    | [x] => x
+    | [Ok (TSingle l); Ok (TSingle r)] => Ok (TBetween l r)
+    | [Panic q; _] => Panic q
+    | [_; Panic q] => Panic q
+    | _ => Panic PUnreachable                  (* unreachable!() *)
+    end.
+
   Fixpoint tao_of (e : gelem) (p : pos) (off : N) (rs : rstate) : res tao_res * rstate :=
     match e with
     | GTok _ _ _ _ =>
@@ -339,25 +368,7 @@ Section Red.
           match count_hits rs1 p off cs 0%nat with
           | O => (Panic PUnreachable, rs1)                      (* children.next().unwrap() *)
           | S (S (S _)) => (Panic PUnreachable, rs1)            (* assert!(children.next().is_none()) *)
-          | _ =>
-              (* recurse into the (one or two) hits, left to right *)
-              let '(results, rs2) :=
-                (fix go (l : list gelem) (i : nat) (rs : rstate) : list (res tao_res) * rstate :=
-                   match l with
-                   | [] => ([], rs)
-                   | c :: r =>
-                       if tao_hit rs1 p off c i then
-                         let '(x, rs') := tao_of c (i :: p) off rs in
-                         let '(xs, rs'') := go r (S i) rs' in (x :: xs, rs'')
-                       else go r (S i) rs
-                   end) cs 0%nat rs1 in
-              match results with
-              | [x] => (x, rs2)
-              | [Ok (TSingle l); Ok (TSingle r)] => (Ok (TBetween l r), rs2)
-              | [Panic q; _] => (Panic q, rs2)
-              | [_; Panic q] => (Panic q, rs2)
-              | _ => (Panic PUnreachable, rs2)                  (* unreachable!() *)
-              end
+          | _ => let '(results, rs2) := tao_loop tao_of p off rs1 cs 0%nat rs1 in (tao_combine results, rs2)
           end
     end.
   Definition token_at_offset (rs : rstate) (p : pos) (off : N) : res tao_res * rstate :=
@@ -365,22 +376,29 @@ Section Red.
 
   Definition contains_range (s l rs re : N) : bool := (s <=? rs) && (re <=? s + l).
 
+  Section CoverLoop.
+    Variable rec : gelem -> pos -> N -> N -> rstate -> res pos * rstate.
+    Variable p : pos.
+    Variable rs_ re_ : N.
+    (* children_with_tokens().find(|child| child.text_range().contains_range(range)) *)
+    Fixpoint cov_loop (l : list gelem) (i : nat) (o : N) (rs : rstate) : res pos * rstate :=
+      match l with
+      | [] => (Ok p, rs)
+      | c :: r =>
+          let rs1 := goa rs (i :: p) o in
+          if contains_range (offset_of rs1 (i :: p)) (glen c) rs_ re_
+          then rec c (i :: p) rs_ re_ rs1
+          else cov_loop r (S i) (o + glen c) rs1
+      end.
+  End CoverLoop.
+
   Fixpoint cov_of (e : gelem) (p : pos) (rs_ re_ : N) (rs : rstate) : res pos * rstate :=
     let s := offset_of rs p in
     if negb (contains_range s (glen e) rs_ re_) then (Panic POffsetRange, rs)
     else
       match e with
       | GTok _ _ _ _ => (Ok p, rs)
-      | GNode _ _ _ _ cs =>
-          (fix find (l : list gelem) (i : nat) (o : N) (rs : rstate) : res pos * rstate :=
-             match l with
-             | [] => (Ok p, rs)
-             | c :: r =>
-                 let rs1 := goa rs (i :: p) o in
-                 if contains_range (offset_of rs1 (i :: p)) (glen c) rs_ re_
-                 then cov_of c (i :: p) rs_ re_ rs1
-                 else find r (S i) (o + glen c) rs1
-             end) cs 0%nat s rs
+      | GNode _ _ _ _ cs => cov_loop cov_of p rs_ re_ cs 0%nat s rs
       end.
   Definition covering_element (rs : rstate) (p : pos) (rs_ re_ : N) : res pos * rstate :=
     match subr g p with Some e => cov_of e p rs_ re_ rs | None => (Panic POther, rs) end.
